@@ -123,7 +123,8 @@ def genSmp (i : Nat) (maxLen : Nat) : G (Ins × Smp) := do
     return ({ name := name, subs := [sub] }, { name := [], len := len, lps := 2 * a, lpe := 2 * b, flg := FLOOP, pcm := pcm })
   return ({ name := name, subs := [sub] }, { name := [], len := len, lps := 0, lpe := 0, flg := 0, pcm := pcm })
 
-def gen (size : Nat) : G (Module × Opts × String) := do
+def gen (special : Nat) : G (Module × Opts × String) := do
+  let size := baseSize special
   let kind ← below 4
   let chn ← if kind < 2 then pure 4 else if (← chance 50) then range 1 9 else range 1 32
   let npat ← if (← chance 10) then range 1 128 else range 1 (2 + size)
@@ -146,11 +147,18 @@ def gen (size : Nat) : G (Module × Opts × String) := do
   let name ← genName 20
   let restart ← if (← chance 60) then pure 0x7f else below 256
   let fxseed ← next
+  -- big files: one (64 KiB class) or nine (1 MiB class) maximal samples first, small ones behind them
+  if special = 5 ∨ special = 6 then
+    let nbig := if special = 6 then 9 else 1
+    for j in [0:nbig + 3] do
+      let n := if j < nbig then 131070 else 64 + 2 * j
+      ins := ins.set! j { name := (ins[j]!).name, subs := [{ sid := j, vol := 64, pan := 0x80, xpo := 0, fin := 0 }] }
+      smps := smps.set! j { name := [], len := n, lps := 0, lpe := 0, flg := 0, pcm := bigPcm (fxseed.toNat % 1000 + j) n }
   let fxOn ← chance 80
   let m : Module := { name := name, chn := chn, orders := ords, pats := pats, ins := ins.toList,
                       smps := smps.toList, spd := 6, bpm := 125 }
   let o : Opts := { kind := kind, restart := u8 restart, fx := if fxOn then hashFx fxseed else fun _ => (0, 0) }
-  return (m, o, s!"kind={kind} chn={chn} pat={npat} len={len} restart={restart} fx={fxOn} allempty={allEmpty} magic={toHex (magicFor kind chn)}")
+  return (m, o, s!"special={special} kind={kind} chn={chn} pat={npat} len={len} restart={restart} fx={fxOn} allempty={allEmpty} magic={toHex (magicFor kind chn)}")
 
 end GenMod
 
@@ -171,6 +179,15 @@ def genLoop (len : Nat) : G (Nat × Nat) := do
   return (a, b)
 
 def hashNat (seed : UInt64) (i : Nat) : Nat := (hashFx seed i).1.toNat
+
+/-- cheap deterministic PCM that differs per sample (`seed`) and per offset, including offsets that differ by
+64 KiB or 1 MiB (so data fetched from a wrong file position is visible) -/
+def bigPcm (seed n : Nat) : Bytes :=
+  (List.range n).map fun k => u8 (k * 37 + k / 256 * 11 + k / 65536 * 7 + seed * 101 + 13)
+
+/-- size classes: 0..2 ordinary; 3 = long IT-compressed samples (several blocks); 5 = sample data beyond 64 KiB;
+6 = sample data beyond 1 MiB; 7, 8 = XM regression witnesses -/
+def baseSize (size : Nat) : Nat := if size ≥ 3 then 0 else size
 
 namespace GenS3m
 open S3m
@@ -199,7 +216,17 @@ def genSlot (i maxLen : Nat) : G (Ins × Smp) := do
   return ({ name := name, subs := [{ sid := i, vol := vol, pan := 0x80, xpo := 0, fin := 0 }] },
           { name := [], len := len, lps := lps, lpe := lpe, flg := flg, pcm := pcm })
 
-def gen (size : Nat) : G (Module × Opts × String) := do
+def bigSlots (special seed : Nat) (slots : List (Ins × Smp)) : List (Ins × Smp) :=
+  slots.zipIdx.map fun ((x, m), j) =>
+    if j > 3 then (x, m) else
+    let (flg, len) : Nat × Nat :=
+      if j = 0 then (if special = 5 then (0, 70000) else if seed % 2 = 0 then (0, 1048576) else (F16BIT, 540000))
+      else if j = 1 then (0, 50) else if j = 2 then (F16BIT, 40) else (FSTEREO, 30)
+    ({ name := x.name, subs := [{ sid := j, vol := 33 + j, pan := 0x80, xpo := 0, fin := 0 }] },
+     { name := [], len := len, lps := 0, lpe := 0, flg := flg, pcm := bigPcm (seed + j) (len * frameBytes flg) })
+
+def gen (special : Nat) : G (Module × Opts × String) := do
+  let size := baseSize special
   let chn ← if (← chance 60) then range 1 8 else range 1 32
   let npat ← if (← chance 5) then range 1 100 else range 1 (2 + size)
   let npat := if size = 0 then min npat 3 else npat
@@ -216,7 +243,9 @@ def gen (size : Nat) : G (Module × Opts × String) := do
     return ({ rows := 64, cells := cells } : Pat)
   let nins ← if (← chance 10) then range 0 1 else range 1 (3 + 4 * size)
   let maxLen := if size = 0 then 40 else if size = 1 then 400 else 3000
+  let nins := if special = 5 ∨ special = 6 then max nins 5 else nins
   let slots ← (List.range nins).mapM fun i => genSlot i maxLen
+  let slots := if special = 5 ∨ special = 6 then bigSlots special (← below 1000) slots else slots
   let name ← genName 28
   let spd ← range 1 255
   let bpm ← if (← chance 70) then range 32 255 else range 20 255
@@ -240,7 +269,7 @@ def gen (size : Nat) : G (Module × Opts × String) := do
                     force := fun i => if forceMode = 0 then 0 else if forceMode = 1 then hashNat fseed i % 8
                                       else (if hashNat fseed i % 4 = 0 then hashNat fseed (i + 7) % 8 else 0),
                     fx := hashFx xseed }
-  return (m, o, s!"chn={chn} pat={npat} len={len} ins={nins} ffi={ffi} pan={panOn} nullEmpty={nullEmpty} force={forceMode} cwt={cwt}")
+  return (m, o, s!"special={special} chn={chn} pat={npat} len={len} ins={nins} ffi={ffi} pan={panOn} nullEmpty={nullEmpty} force={forceMode} cwt={cwt}")
 
 end GenS3m
 
@@ -286,7 +315,7 @@ def genIns (sid maxLen : Nat) : G (Ins × List Smp) := do
   return ({ name := name, subs := subs, keymap := List.replicate 12 0 ++ km ++ List.replicate 13 0 }, smps)
 
 def gen (witness : Nat) : G (Module × Opts × String) := do
-  let size := if witness ≥ 7 then 0 else witness
+  let size := baseSize witness
   let chn ← if (← chance 60) then range 1 8 else range 1 32
   let npat ← if (← chance 5) then range 1 64 else range 1 (2 + size)
   let npat := if size = 0 then min npat 3 else npat
@@ -307,6 +336,12 @@ def gen (witness : Nat) : G (Module × Opts × String) := do
   let maxLen := if size = 0 then 40 else if size = 1 then 400 else 3000
   let mut ins : Array Ins := #[]
   let mut smps : Array Smp := #[]
+  let bigSeed ← below 1000
+  if witness = 5 ∨ witness = 6 then
+    -- big files: a long first sample pushes every later sample beyond 64 KiB / 1 MiB
+    let (flg, len) : Nat × Nat := if witness = 5 then (0, 70000) else if bigSeed % 2 = 0 then (0, 1048576) else (F16BIT, 540000)
+    ins := ins.push { name := str "BIG", subs := [{ sid := 0, vol := 64, pan := 128, xpo := 0, fin := 0 }], keymap := List.replicate 121 0 }
+    smps := smps.push { name := str "big", len := len, lps := 0, lpe := 0, flg := flg, pcm := bigPcm bigSeed (len * frameBytes flg) }
   for _ in [0:nins] do
     let (x, ms) ← genIns smps.size maxLen
     ins := ins.push x
@@ -330,6 +365,12 @@ def gen (witness : Nat) : G (Module × Opts × String) := do
                       keymap := List.replicate 121 0 }
     smps := smps.push { name := str "five", len := 5, lps := 0, lpe := 0, flg := 0, pcm := [1, 2, 3, 4, 5] }
   let eis := if witness = 7 then 29 else eis
+  if witness = 5 ∨ witness = 6 then
+    for j in [0:3] do
+      let flg := if j = 0 then 0 else if j = 1 then F16BIT else FSTEREO
+      ins := ins.push { name := str "AFTER", subs := [{ sid := smps.size, vol := 40 + j, pan := 128, xpo := 0, fin := 0 }],
+                        keymap := List.replicate 121 0 }
+      smps := smps.push { name := str "after", len := 60 + j, lps := 0, lpe := 0, flg := flg, pcm := bigPcm (bigSeed + 1 + j) ((60 + j) * frameBytes flg) }
   let nins := ins.size
   let trk ← match (← below 3) with
     | 0 => pure (str "FastTracker v2.00   ") | 1 => pure (str "OpenMPT 1.31.07.00  ") | _ => genName 20
@@ -342,7 +383,7 @@ def gen (witness : Nat) : G (Module × Opts × String) := do
                     mode := fun i => match modeKind with
                       | 0 => 0 | 1 => 32 | 2 => hashNat mseed i % 33 | _ => 31,
                     filler := fun i => u8 (hashNat oseed i) }
-  return (m, o, s!"chn={chn} pat={npat} len={len} ins={nins} smp={smps.size} mode={modeKind} emptyZero={emptyZero} emptyIns={eis}")
+  return (m, o, s!"special={witness} chn={chn} pat={npat} len={len} ins={nins} smp={smps.size} mode={modeKind} emptyZero={emptyZero} emptyIns={eis}")
 
 end GenXm
 
@@ -380,7 +421,20 @@ def genSlot (i maxLen : Nat) : G (Ins × Smp) := do
   return ({ name := name, subs := [{ sid := i, vol := vol, pan := (pan * 4 : Nat), xpo := 0, fin := 0 }] },
           { name := [], len := len, lps := lps, lpe := lpe, flg := flg, sus := sus, sue := sue, pcm := pcm })
 
-def gen (size : Nat) : G (Module × Opts × String) := do
+def bigSlots (special seed : Nat) (slots : List (Ins × Smp)) : List (Ins × Smp) :=
+  slots.zipIdx.map fun ((x, m), j) =>
+    if j > 3 then (x, m) else
+    let (flg, len) : Nat × Nat :=
+      if special = 3 then
+        (if j = 0 then (F16BIT, 0x4000 + 300) else if j = 1 then (0, 0x8000 + 100) else if j = 2 then (F16BIT + FSTEREO, 0x4000 + 50)
+         else (0, 700))
+      else if j = 0 then (if special = 5 then (0, 70000) else if seed % 2 = 0 then (0, 1048576) else (F16BIT, 540000))
+      else if j = 1 then (0, 50) else if j = 2 then (F16BIT, 40) else (FSTEREO, 30)
+    ({ name := x.name, subs := [{ sid := j, vol := 33 + j, pan := (4 * j : Nat), xpo := 0, fin := 0 }] },
+     { name := [], len := len, lps := 0, lpe := 0, flg := flg, pcm := bigPcm (seed + j) (len * frameBytes flg) })
+
+def gen (special : Nat) : G (Module × Opts × String) := do
+  let size := baseSize special
   let chn ← if (← chance 60) then range 1 8 else range 1 64
   let npat ← if (← chance 5) then range 1 60 else range 1 (2 + size)
   let npat := if size = 0 then min npat 3 else npat
@@ -402,7 +456,13 @@ def gen (size : Nat) : G (Module × Opts × String) := do
     return ({ rows := rows, cells := cells } : Pat)
   let nsmp ← if (← chance 10) then range 0 1 else range 1 (3 + 4 * size)
   let maxLen := if size = 0 then 40 else if size = 1 then 400 else 3000
+  let isSpecial := special = 3 ∨ special = 5 ∨ special = 6
+  let nsmp := if isSpecial then max nsmp 5 else nsmp
   let slots ← (List.range nsmp).mapM fun i => genSlot i maxLen
+  let slots := if isSpecial then bigSlots special (← below 1000) slots else slots
+  let wseed ← next
+  let wmode ← below 3
+  let compRate ← below 3
   let name ← genName 25
   let spd ← range 1 255
   let bpm ← range 32 255
@@ -417,6 +477,15 @@ def gen (size : Nat) : G (Module × Opts × String) := do
   let o : Opts := { cwt := (if (← chance 50) then 0x0214 else 0x0888), cmwt := (if (← chance 50) then 0x0214 else 0x0200),
                     flags := (← below 256), gv := u8 (← range 0 128), mv := u8 (← below 129),
                     signed := fun i => hashNat sseed i % 2 = 0,
+                    comp := fun i =>
+                      if special = 3 then [2, 1, 2, 2].getD i (hashNat wseed (i + 40) % 3)
+                      else if special = 5 ∨ special = 6 then (if i = 0 then 0 else hashNat wseed (i + 40) % 3)
+                      else if compRate = 0 then 0 else if compRate = 1 then hashNat wseed (i + 40) % 3
+                      else 1 + hashNat wseed (i + 40) % 2,
+                    wsel := fun i pos =>
+                      let h := hashNat wseed (i * 100003 + pos)
+                      if wmode = 0 then 0 else if wmode = 1 then (if h % 5 = 0 then hashNat wseed (pos + 17) % 17 + 1 else 0)
+                      else 1 + h % 7,
                     c5spd := fun i => 4000 + hashNat sseed (i + 500) * 173,
                     nullEmpty := nullEmpty,
                     cell := fun i =>
@@ -428,7 +497,7 @@ def gen (size : Nat) : G (Module × Opts × String) := do
                         fade := hashNat cseed (i + 77) },
                     chpan := fun k => u8 (hashNat cseed (k + 9000) % 65),
                     chvol := fun k => u8 (hashNat cseed (k + 9100) % 65) }
-  return (m, o, s!"chn={chn} pat={npat} len={len} smp={nsmp} last={lastMode} fx={fxOn} nullEmpty={nullEmpty}")
+  return (m, o, s!"special={special} comp={compRate} wmode={wmode} chn={chn} pat={npat} len={len} smp={nsmp} last={lastMode} fx={fxOn} nullEmpty={nullEmpty}")
 
 end GenIt
 
